@@ -215,9 +215,11 @@ class KMLServer(Server):
                 DELTA = -1.0/10e6
                 if (sub_bbox[0] - bbox[0]) > DELTA and (sub_bbox[1] - bbox[1]) > DELTA:
                     sub_bbox_wgs = self._tile_bbox_to_wgs(sub_bbox, layer.grid)
-                    coord = layer.grid.external_tile_coord(coord, use_profiles=False)
+                    # flip with the grid size of the internal level, the public level
+                    # differs for sqrt2 grids
                     if layer.grid.origin not in ('ll', 'sw', None):
                         coord = layer.grid.flip_tile_coord(coord)
+                    coord = layer.grid.external_tile_coord(coord, use_profiles=False)
                     subtiles.append(SubTile(coord, sub_bbox_wgs))
 
         return subtiles
